@@ -472,4 +472,163 @@ theorem foldSI_fill (st : Nat) : ∀ (todo done : List Cell) (items : List Cell)
       rw [this]; simp
 
 
+/-! ### the hard-wrap draw loops -/
+
+/-- the text mode of a hard-wrap draw loop: the ellipsis branch `truncate && col+uint16(char.Width) >= Max.Width` -/
+def hardM (est : Option Nat) : TextMode :=
+  { hard := true, ell := [.lineTooWide, .reach], sizeStrict := true, drawStrict := true, ellipsisStyle := est, fill := none, sz := (.sizeW, .sizeH) }
+
+/-- one character of a hard-wrap row -/
+def colStepH (maxW row : UInt16) (tw : Bool) (est : Option Nat) (a : UInt16 × Surface) (ch : Cell) : Step (UInt16 × Surface) :=
+  if a.1 ≥ maxW then .brk a
+  else if tw && decide (a.1 + u16 ch.w ≥ maxW) then
+    match writeCell exactA a.2 a.1 row { g := gEllipsis, w := 1, st := est.getD ch.st } with
+    | .error p => .err (.panic p)
+    | .ok s' => .brk (a.1, s')
+  else match writeCell exactA a.2 a.1 row ch with
+    | .error p => .err (.panic p)
+    | .ok s' => .next (a.1 + u16 ch.w, s')
+
+theorem foldS_colStepH (maxW row : UInt16) (tw : Bool) (est : Option Nat) : ∀ (line : List Cell) (col : UInt16) (s : Surface),
+    (∃ col' s', foldS (colStepH maxW row tw est) line (col, s) = .next (col', s') ∧ drawLine exactA (hardM est) maxW row tw line col s = .ok s') ∨
+    (∃ p, foldS (colStepH maxW row tw est) line (col, s) = .err (.panic p) ∧ drawLine exactA (hardM est) maxW row tw line col s = .error p) := by
+  intro line
+  have hh : (hardM est).hard = true := rfl
+  have he : (hardM est).ell = [.lineTooWide, .reach] := rfl
+  have hs : (hardM est).ellipsisStyle = est := rfl
+  induction line with
+  | nil => intro col s; exact .inl ⟨col, s, by simp [foldS, drawLine]⟩
+  | cons ch r ih =>
+    intro col s
+    by_cases hg : col ≥ maxW
+    · exact .inl ⟨col, s, by simp [foldS, colStepH, drawLine, hg]⟩
+    · by_cases ht : (tw && decide (col + u16 ch.w ≥ maxW)) = true
+      · have hall : ((hardM est).ell.all (evalEll tw (col + u16 ch.w ≥ maxW) (!r.isEmpty))) = true := by
+          simp only [he, List.all_cons, List.all_nil, evalEll, Bool.and_true]
+          simpa using ht
+        cases hw : writeCell exactA s col row { g := gEllipsis, w := 1, st := est.getD ch.st } with
+        | error p => exact .inr ⟨p, by simp [foldS, colStepH, hg, ht, hw], by simp [drawLine, hg, hh, hall, hs, hw]⟩
+        | ok s' => exact .inl ⟨col, s', by simp [foldS, colStepH, hg, ht, hw], by simp [drawLine, hg, hh, hall, hs, hw]⟩
+      · have hall : ((hardM est).ell.all (evalEll tw (col + u16 ch.w ≥ maxW) (!r.isEmpty))) = false := by
+          simp only [he, List.all_cons, List.all_nil, evalEll, Bool.and_true]
+          simpa using ht
+        cases hw : writeCell exactA s col row ch with
+        | error p => exact .inr ⟨p, by simp [foldS, colStepH, hg, ht, hw], by simp [drawLine, hg, hh, hall, hw]⟩
+        | ok s' =>
+          rcases ih (col + u16 ch.w) s' with ⟨c', s'', h1, h2⟩ | ⟨p, h1, h2⟩
+          · exact .inl ⟨c', s'', by simp [foldS, colStepH, hg, ht, hw, h1], by simp [drawLine, hg, hh, hall, hw, h2]⟩
+          · exact .inr ⟨p, by simp [foldS, colStepH, hg, ht, hw, h1], by simp [drawLine, hg, hh, hall, hw, h2]⟩
+
+/-- one line of a hard-wrap Draw over a scanner -/
+def rowStepH (f : List Cell → List Cell) (txt : Bool) (maxW maxH : UInt16) (est : Option Nat) (a : Val × UInt16 × Surface)
+    (p : List Cell × List (List Cell)) : Step (Val × UInt16 × Surface) :=
+  if a.2.1 ≥ maxH then .ret (.scanner txt p.2 p.1, a.2.1, a.2.2) (.tup (.surf a.2.2) .nil)
+  else match drawLine exactA (hardM est) maxW a.2.1 (tooWide maxW (f p.1)) (f p.1) 0 a.2.2 with
+    | .error e => .err (.panic e)
+    | .ok s' => .next (.scanner txt p.2 p.1, a.2.1 + 1, s')
+
+theorem foldS_rowStepH (f : List Cell → List Cell) (txt : Bool) (maxW maxH : UInt16) (est : Option Nat) :
+    ∀ (lines : List (List Cell)) (sc : Val) (row : UInt16) (s : Surface),
+    (∃ sc' row' s', (foldS (rowStepH f txt maxW maxH est) (scanPairs lines) (sc, row, s) = .next (sc', row', s') ∨
+                     foldS (rowStepH f txt maxW maxH est) (scanPairs lines) (sc, row, s) = .ret (sc', row', s') (.tup (.surf s') .nil)) ∧
+        drawLines exactA (hardM est) maxW maxH (lines.map f) row s = .ok s') ∨
+    (∃ p, foldS (rowStepH f txt maxW maxH est) (scanPairs lines) (sc, row, s) = .err (.panic p) ∧
+        drawLines exactA (hardM est) maxW maxH (lines.map f) row s = .error p) := by
+  intro lines
+  have hh : (hardM est).drawStrict = true := rfl
+  induction lines with
+  | nil => intro sc row s; exact .inl ⟨sc, row, s, .inl (by simp [foldS, scanPairs]), by simp [drawLines]⟩
+  | cons l r ih =>
+    intro sc row s
+    by_cases hg : row ≥ maxH
+    · exact .inl ⟨.scanner txt r l, row, s, .inr (by simp [foldS, scanPairs, rowStepH, hg]), by simp [drawLines, hGuard, hh, hg]⟩
+    · cases hd : drawLine exactA (hardM est) maxW row (tooWide maxW (f l)) (f l) 0 s with
+      | error p => exact .inr ⟨p, by simp [foldS, scanPairs, rowStepH, hg, hd], by simp [drawLines, hGuard, hh, hg, hd]⟩
+      | ok s' =>
+        rcases ih (.scanner txt r l) (row + 1) s' with ⟨sc', row', s'', h1, h2⟩ | ⟨p, h1, h2⟩
+        · refine .inl ⟨sc', row', s'', ?_, ?_⟩
+          · simpa [foldS, scanPairs, rowStepH, hg, hd] using h1
+          · simp [drawLines, hGuard, hh, hg, hd, h2]
+        · refine .inr ⟨p, ?_, ?_⟩
+          · simpa [foldS, scanPairs, rowStepH, hg, hd] using h1
+          · simp [drawLines, hGuard, hh, hg, hd, h2]
+
+/-- one line of a hard-wrap Draw over a list of lines (`Text.Draw`: `for _, line := range hardLines(…)`) -/
+def rowStepHL (f : List Cell → List Cell) (maxW maxH : UInt16) (est : Option Nat) (a : UInt16 × Surface)
+    (line : List Cell) : Step (UInt16 × Surface) :=
+  if a.1 ≥ maxH then .ret a (.tup (.surf a.2) .nil)
+  else match drawLine exactA (hardM est) maxW a.1 (tooWide maxW (f line)) (f line) 0 a.2 with
+    | .error e => .err (.panic e)
+    | .ok s' => .next (a.1 + 1, s')
+
+theorem foldS_rowStepHL (f : List Cell → List Cell) (maxW maxH : UInt16) (est : Option Nat) :
+    ∀ (lines : List (List Cell)) (row : UInt16) (s : Surface),
+    (∃ row' s', (foldS (rowStepHL f maxW maxH est) lines (row, s) = .next (row', s') ∨
+                 foldS (rowStepHL f maxW maxH est) lines (row, s) = .ret (row', s') (.tup (.surf s') .nil)) ∧
+        drawLines exactA (hardM est) maxW maxH (lines.map f) row s = .ok s') ∨
+    (∃ p, foldS (rowStepHL f maxW maxH est) lines (row, s) = .err (.panic p) ∧
+        drawLines exactA (hardM est) maxW maxH (lines.map f) row s = .error p) := by
+  intro lines
+  have hh : (hardM est).drawStrict = true := rfl
+  induction lines with
+  | nil => intro row s; exact .inl ⟨row, s, .inl (by simp [foldS]), by simp [drawLines]⟩
+  | cons l r ih =>
+    intro row s
+    by_cases hg : row ≥ maxH
+    · exact .inl ⟨row, s, .inr (by simp [foldS, rowStepHL, hg]), by simp [drawLines, hGuard, hh, hg]⟩
+    · cases hd : drawLine exactA (hardM est) maxW row (tooWide maxW (f l)) (f l) 0 s with
+      | error p => exact .inr ⟨p, by simp [foldS, rowStepHL, hg, hd], by simp [drawLines, hGuard, hh, hg, hd]⟩
+      | ok s' =>
+        rcases ih (row + 1) s' with ⟨row', s'', h1, h2⟩ | ⟨p, h1, h2⟩
+        · refine .inl ⟨row', s'', ?_, ?_⟩
+          · simpa [foldS, rowStepHL, hg, hd] using h1
+          · simp [drawLines, hGuard, hh, hg, hd, h2]
+        · refine .inr ⟨p, ?_, ?_⟩
+          · simpa [foldS, rowStepHL, hg, hd] using h1
+          · simp [drawLines, hGuard, hh, hg, hd, h2]
+
+theorem tooWide_restyle (st : Nat) (maxW : UInt16) (line : List Cell) : tooWide maxW (line.map (restyle st)) = tooWide maxW line := by
+  have : ∀ l : List Cell, lineWidthInt (l.map (restyle st)) = lineWidthInt l := by
+    intro l; induction l with
+    | nil => rfl
+    | cons c r ih => simp [lineWidthInt, restyle, ih]
+  simp [tooWide, this]
+
+
+/-- the draw loops look at four fields of the mode only -/
+theorem drawLine_congr (m m' : TextMode) (h1 : m.hard = m'.hard) (h2 : m.ell = m'.ell) (h3 : m.ellipsisStyle = m'.ellipsisStyle)
+    (maxW row : UInt16) (tw : Bool) :
+    ∀ (line : List Cell) (col : UInt16) (s : Surface), drawLine exactA m maxW row tw line col s = drawLine exactA m' maxW row tw line col s := by
+  intro line
+  induction line with
+  | nil => intro col s; simp [drawLine]
+  | cons ch r ih =>
+    intro col s
+    simp only [drawLine, h1, h2, h3]
+    by_cases hg : col ≥ maxW
+    · simp [hg]
+    · simp only [hg, if_false]
+      split
+      · rfl
+      · cases writeCell exactA s col row ch with
+        | error p => rfl
+        | ok s' => simp [ih]
+
+theorem drawLines_congr (m m' : TextMode) (h1 : m.hard = m'.hard) (h2 : m.ell = m'.ell) (h3 : m.ellipsisStyle = m'.ellipsisStyle)
+    (h4 : m.drawStrict = m'.drawStrict) (maxW maxH : UInt16) :
+    ∀ (lines : List (List Cell)) (row : UInt16) (s : Surface),
+    drawLines exactA m maxW maxH lines row s = drawLines exactA m' maxW maxH lines row s := by
+  intro lines
+  induction lines with
+  | nil => intro row s; simp [drawLines]
+  | cons l r ih =>
+    intro row s
+    simp only [drawLines, h4, drawLine_congr m m' h1 h2 h3]
+    by_cases hg : hGuard m'.drawStrict row maxH = true
+    · simp [hg]
+    · simp only [hg]
+      cases drawLine exactA m' maxW row (tooWide maxW l) l 0 s with
+      | error p => rfl
+      | ok s' => simp [ih]
+
 end VaxisModel.Lemmas.SurfExec
